@@ -91,28 +91,39 @@ def r1(ctx):
     for m in spec_rows:
         ctx.ob("C01.R1", f"SPECS key {m} is a MsgType member", m in members, ctx.w(pmod, specs_node))
 
-    # parser keyword chain
+    # parser keyword map: evaluate _start_new_var for every type keyword the template uses (if-chain, dict
+    # table or helper - the function is interpreted, not pattern-matched)
     pf = repo.fn("MessageTemplateParser._start_new_var")
-    kwmap = {}
-    for n in walk(pf.node):
-        if isinstance(n, ast.If):
-            for e, pol in atoms(n.test, True):
-                pass
-            for cmp_ in [x for x in walk(n.test) if isinstance(x, ast.Compare)]:
-                if len(cmp_.ops) == 1 and isinstance(cmp_.ops[0], ast.Eq) and isinstance(cmp_.comparators[0], ast.Constant) \
-                        and isinstance(cmp_.comparators[0].value, str):
-                    kwd = cmp_.comparators[0].value
-                    # the assignment of var_type directly guarded by this keyword
-                    for st in stores(ast.Module(body=n.body, type_ignores=[]), into_defs=False):
-                        if st.kind == "assign" and st.path == "var_type" and st.value is not None:
-                            v = ConstEval(repo, pf.module).ev(st.value)
-                            if isinstance(v, EnumVal):
-                                # innermost guard wins (Fixed/Variable nested ifs)
-                                inner = [a for a, p in facts(st.node, pf.node) if p and isinstance(a, ast.Compare)
-                                         and isinstance(a.comparators[0], ast.Constant) and a.comparators[0].value == kwd]
-                                if inner:
-                                    kwmap.setdefault(kwd, set()).add(v.name)
     tmpl = parse_template(repo.root, repo.overlay)
+    kwmap = {}
+    kw_in_template = sorted({v.type for m in tmpl.values() for b in m.blocks for v in b.vars})
+    for kwd in kw_in_template:
+        pev = ConstEval(repo, pf.module)
+
+        def tsize_hook(base, attr):
+            if isinstance(base, EnumVal) and base.cls == "MsgType" and attr == "size":
+                return sizes.get(base.name, Sym("NO_SIZE_ROW"))
+            return None
+        pev.attr_hook = tsize_hook
+
+        def mhook(node, fn, args, kwargs, local, _kwd=kwd):
+            # the regex match object: group(1)=name, group(2)=type keyword, group(4)=explicit size
+            if fn.endswith(".group") and len(args) == 1 and isinstance(args[0], int):
+                return {1: "VarName", 2: _kwd, 3: " 4", 4: "4"}.get(args[0], Sym("group"))
+            return None
+        pev.call_hook = mhook
+        env = {}
+        try:
+            out = run_block(pev, pf.node.body, env)
+        except AnalysisError as e:
+            raise AnalysisError(f"C01.R1: cannot evaluate _start_new_var for keyword {kwd!r}: {e}")
+        vt = None
+        if out.kind == "return" and isinstance(out.value, CallVal):
+            vt = next((a for a in out.value.args if isinstance(a, EnumVal)), None)
+        if vt is None:
+            vt = next((v for v in env.values() if isinstance(v, EnumVal) and v.cls == "MsgType"), None)
+        if vt is not None:
+            kwmap.setdefault(kwd, set()).add(vt.name)
     ctx.floor("C01.R1", "template messages", len(tmpl), 400)
     used = {}
     nfixed = 0
@@ -134,7 +145,7 @@ def r1(ctx):
         tgt = kwmap.get(kwd, set())
         ctx.ob("C01.R1", f"template keyword {kwd} parsed to one MsgType", len(tgt) == 1 and next(iter(tgt)) in members,
                pf.where, f"keyword used by {example} maps to {sorted(tgt)}")
-    ctx.floor("C01.R1", "parser keywords", len(kwmap), 20)
+    ctx.floor("C01.R1", "parser keywords", len(kwmap), 18)
 
     # factory rows / idiom rows
     for m, v in spec_rows.items():
@@ -150,6 +161,10 @@ def r1(ctx):
                     fmt = val
             fmt = fmt or (ev.ev(kw(v, "struct_fmt")) if kw(v, "struct_fmt") is not None else None)
             ctx.require(isinstance(fmt, str), f"SPECS[{m}] format is not a literal")
+            lossy = sorted(set(fmt.lstrip("<>!=@")) & set("?cpPnNx"))
+            ctx.ob("C01.R1", f"SPECS[{m}] struct codes are value-preserving", not lossy, where,
+                   f"format {fmt!r} uses code(s) {lossy}: '?' collapses every non-zero byte to True, pad/native codes do "
+                   f"not carry the wire value - not every value of the wire domain survives unpack-then-pack")
             try:
                 size = struct.calcsize(fmt)
             except struct.error:
@@ -722,6 +737,58 @@ def _taken_assign(ev, fn_node, env, target):
     return found[-1] if found else None
 
 
+def _taken_return(ev, stmts, env):
+    """AST of the value returned on the path taken under env (sequential semantics, decidable tests only)."""
+    for st in stmts:
+        if isinstance(st, ast.If):
+            t = ev.ev(st.test, env)
+            if isinstance(t, (Sym, CallVal)):
+                return None
+            r = _taken_return(ev, st.body if t else st.orelse, env)
+            if r is not None:
+                return r
+        elif isinstance(st, ast.Return):
+            return st.value
+        elif isinstance(st, ast.Assign) and len(st.targets) == 1 and isinstance(st.targets[0], ast.Name):
+            env[st.targets[0].id] = ev.ev(st.value, env)
+    return None
+
+
+def _resolve_value(repo, fi, node, env, depth=0):
+    """Follow a value expression to the expression that actually builds it: locals through the assignment
+    taken under env, calls to same-module functions / self. helpers through the return taken under env.
+    Returns (expression AST, function it lives in, env there)."""
+    if node is None or depth > 6:
+        return node, fi, env
+    ev = ConstEval(repo, fi.module)
+    if isinstance(node, ast.Name):
+        v = _taken_assign(ev, fi.node, env, node.id)
+        if v is not None and v is not node:
+            return _resolve_value(repo, fi, v, env, depth + 1)
+        return node, fi, env
+    if isinstance(node, ast.Call):
+        target = None
+        if isinstance(node.func, ast.Name):
+            cands = [g for g in repo.funcs.get(node.func.id, []) if g.module is fi.module and g.cls is None and g.parent_fn is None]
+            target = cands[0] if len(cands) == 1 else None
+        elif isinstance(node.func, ast.Attribute) and isinstance(node.func.value, ast.Name) and \
+                node.func.value.id in ("self", "cls") and fi.cls is not None:
+            target = repo.lookup_method(fi.cls, node.func.attr)
+        if target is not None:
+            ps = [a.arg for a in target.node.args.args if a.arg not in ("self", "cls")]
+            env2 = {}
+            for pname, anode in zip(ps, node.args):
+                env2[pname] = ev.ev(anode, env)
+            for k in node.keywords:
+                if k.arg:
+                    env2[k.arg] = ev.ev(k.value, env)
+            ev2 = ConstEval(repo, target.module)
+            r = _taken_return(ev2, target.node.body, env2)
+            if r is not None:
+                return _resolve_value(repo, target, r, env2, depth + 1)
+    return node, fi, env
+
+
 def _num_layout(value_node):
     """(ff_prefix_len, struct fmt) of a message-number byte expression like b'\xff\xff' + struct.pack('!H', n)
     or struct.pack('!BBH', 0xff, 0xff, n)."""
@@ -775,8 +842,14 @@ def r7(ctx):
         fv = EnumVal("MsgFrequency", m, mv)
         for f, var in ((bmi, "frequency"), (snt, "frequency")):
             ev = ConstEval(repo, f.module)
-            env = {var: fv, "template.frequency": fv}
-            node = _taken_assign(ev, f.node, env, "num_bytes" if f is bmi else "msg_num_bytes")
+            env = {var: fv, "template.frequency": fv, "new_template.frequency": fv}
+            # the expression finally stored into <template>.freq_num_bytes, followed through locals and helpers
+            sts = [st_ for st_ in stores(f.node, into_defs=False) if st_.kind == "assign" and st_.path.endswith(".freq_num_bytes")]
+            node = None
+            if sts:
+                node, _, _ = _resolve_value(repo, f, sts[-1].value, dict(env))
+                if isinstance(node, ast.Name):
+                    node = None
             ctx.ob("C01.R7", f"{f.qual}: builds number bytes for {m}", node is not None, f.where)
             if node is None:
                 continue
@@ -795,8 +868,16 @@ def r7(ctx):
             if f is bmi:
                 # frequency name used as dictionary key must be the reader's row name
                 ev2 = ConstEval(repo, bd.module)
-                nm_node = _taken_assign(ev2, bd.node, {"template.frequency": fv}, "frequency_str")
-                nm = ev2.ev(nm_node) if nm_node is not None else None
+                # first element of the (frequency name, num) key stored into message_dict
+                nm = None
+                for st_ in stores(bd.node, into_defs=False):
+                    if st_.kind == "setitem" and st_.path.endswith(".message_dict") and isinstance(st_.target, ast.Subscript):
+                        keyn = st_.target.slice
+                        if isinstance(keyn, ast.Name):
+                            keyn, _, _ = _resolve_value(repo, bd, keyn, {"template.frequency": fv})
+                        if isinstance(keyn, ast.Tuple) and keyn.elts:
+                            first, fi2, env2 = _resolve_value(repo, bd, keyn.elts[0], {"template.frequency": fv})
+                            nm = ConstEval(repo, fi2.module).ev(first, env2)
                 ctx.ob("C01.R7", f"lookup key name for {m} equals reader row name", k < len(rows) and nm == rows[k][0], bd.where,
                        f"dictionary key {nm!r}, reader row {rows[k][0] if k < len(rows) else None!r}")
                 # body skip length
@@ -899,7 +980,30 @@ def r9(ctx):
     c02.r4(RenamedCtx(ctx, {"C02.R4": "C01.R9"}))
 
 
+def r10(ctx):
+    repo = ctx.repo
+    ctx.rule("C01.R10", "changing the extra header bytes re-frames the body: Message.extra's setter forces the lazy parse "
+                        "before it changes raw_extra / offset (the pending raw body was cut with the old offset)")
+    from ..cfg import CFG
+    f = repo.fn("Message.extra.setter")
+    cfg = CFG(f.node)
+    parse_nodes = [n for n in cfg.nodes if n.ast is not None and n.kind == "stmt" and
+                   (any(call_attr(c) in ("ensure_parsed",) for c in calls(n.ast)) or
+                    any(isinstance(x, ast.Attribute) and x.attr == "blocks" and isinstance(x.ctx, ast.Load) for x in walk(n.ast)))]
+    sts = [st for st in stores(f.node, into_defs=False) if st.kind in ("assign", "augassign") and
+           st.path.split(".")[-1] in ("raw_extra", "offset")]
+    ctx.floor("C01.R10", "stores to raw_extra/offset in the extra setter", len(sts), 2)
+    for st in sts:
+        nodes = cfg.stmt_nodes_containing(st.node) or cfg.nodes_for(st.node)
+        # no path from entry to the store that avoids the forced parse
+        reach = cfg.reachable([cfg.entry], avoid=lambda n: n in parse_nodes, exc=False)
+        ok = bool(parse_nodes) and not any(n in reach for n in nodes)
+        ctx.ob("C01.R10", f"Message.extra setter: `{norm(st.node)}` happens after ensure_parsed()", ok, ctx.w(f, st.node),
+               "a lazily held body would be parsed later with the new offset against bytes framed with the old one")
+
+
 def run(ctx):
+    r10(ctx)
     r9(ctx)
     r8(ctx)
     r7(ctx)
